@@ -39,12 +39,25 @@ def lambda_op(node):
     return None
 
 
+def do_operation(model, cls):
+    """<cls>._DoOperation, whose calling convention the operand-order rules are written against: (self, p1, p2,
+    operation, ...) with p1 the left and p2 the right operand.  Another convention (a flag saying which side self is
+    on, operands packed in a tuple ...) is not something these rules can read the operand order from."""
+    fn = model.lookup(cls, "_DoOperation")
+    if fn is None:
+        raise AnalysisError("anchor method not found: %s._DoOperation" % cls)
+    if fn.params[1:4] != ["p1", "p2", "operation"]:
+        raise AnalysisError("%s._DoOperation%s no longer takes (left operand, right operand, operation name): the operand order of the operators cannot be read off its calls" % (cls, tuple(fn.params)))
+    return fn
+
+
 def dunder_facts(model, cls, dunder):
     """Facts about `def __x__(self, other): return self._DoOperation(A, B, "Op"[, lambda])`.
     Returns dict(fn, op, order, lam) or None when the class (with bases) does not define it."""
     fn = model.lookup(cls, dunder)
     if fn is None:
         return None
+    do_operation(model, cls)
     rets = [n for n in ast.walk(fn.node) if isinstance(n, ast.Return) and n.value is not None]
     if len(rets) != 1 or not isinstance(rets[0].value, ast.Call):
         return {"fn": fn, "op": None, "order": None, "lam": None, "why": "body is not a single `return self._DoOperation(...)`"}
